@@ -581,6 +581,65 @@ func dominatingFact(v ssa.Value, b *ssa.BasicBlock) nilState {
 // that go/ssa introduces in functions with defer/recover
 // (`*r = v; rundefers; t = *r; return t`).
 func returnedValue(ret *ssa.Return, i int) ssa.Value {
+	return passThrough(returnedValueRaw(ret, i))
+}
+
+// resolvedCallee: the static callee of a call, or the closure a call through a
+// local variable resolves to.
+func resolvedCallee(cs ssa.CallInstruction) *ssa.Function {
+	cc := cs.Common()
+	if f := cc.StaticCallee(); f != nil {
+		return f
+	}
+	if cc.IsInvoke() {
+		return nil
+	}
+	if mc, ok := root(cc.Value).(*ssa.MakeClosure); ok {
+		if f, ok := mc.Fn.(*ssa.Function); ok {
+			return f
+		}
+	}
+	return nil
+}
+
+// passThrough: a call of a function whose every return hands back one of its
+// own parameters unchanged (`abort := func(err error) error { cleanup();
+// return err }`) denotes the argument passed for that parameter.
+func passThrough(v ssa.Value) ssa.Value {
+	for i := 0; i < 3; i++ {
+		call, ok := v.(*ssa.Call)
+		if !ok {
+			return v
+		}
+		f := resolvedCallee(call)
+		if f == nil || len(f.Blocks) == 0 || f.Signature.Results().Len() != 1 {
+			return v
+		}
+		k := -1
+		for _, ret := range returnsOf(f) {
+			if len(ret.Results) != 1 {
+				return v
+			}
+			idx := -1
+			for pi, p := range f.Params {
+				if returnedValueRaw(ret, 0) == ssa.Value(p) {
+					idx = pi
+				}
+			}
+			if idx < 0 || (k >= 0 && idx != k) {
+				return v
+			}
+			k = idx
+		}
+		if k < 0 || k >= len(call.Call.Args) {
+			return v
+		}
+		v = call.Call.Args[k]
+	}
+	return v
+}
+
+func returnedValueRaw(ret *ssa.Return, i int) ssa.Value {
 	v := ret.Results[i]
 	u, ok := v.(*ssa.UnOp)
 	if !ok || u.Op != token.MUL {
